@@ -76,11 +76,12 @@ theorem c10_equal_one_sound (σ : Env) (x y : Sym) (vx vy : Int)
   · simp only [hb, Bool.false_eq_true, if_false] at hi
     split at hi <;> simp at hi
 
-/-- `Equal`'s element rule is a homomorphism for the executed comparison (1 if equal else 0),
-given sound ranges for every operand pair it is applied to. -/
-theorem c10_equal_hom (σ : Env) (hr : ∀ e : Sym, RangeSound σ e) :
-    OpHom σ eqOp (fun a b => some (if a = b then 1 else 0)) := by
-  intro x y r vx vy w ho hx hy hf
+/-- `Equal`'s element rule is a homomorphism for the executed comparison (1 if equal else 0) on
+operands whose `range()` is sound.  (`RangeSound` is not universally true — `rangeSound_not_universal`
+— so it is a predicate on the inspected operands, discharged by `rangeSound_of_good`.) -/
+theorem c10_equal_homOn (σ : Env) :
+    OpHomOn σ (RangeSound σ) eqOp (fun a b => some (if a = b then 1 else 0)) := by
+  intro x y r vx vy w hrx hry ho hx hy hf
   cases hf
   unfold eqOp at ho
   by_cases hb : x.beq y = true
@@ -91,11 +92,16 @@ theorem c10_equal_hom (σ : Env) (hr : ∀ e : Sym, RangeSound σ e) :
   · simp only [hb, Bool.false_eq_true, if_false] at ho
     by_cases hc : (x.range.2 < y.range.1 || y.range.2 < x.range.1) = true
     · simp only [hc, if_true] at ho; cases ho
-      have h1 := hr x vx hx
-      have h2 := hr y vy hy
+      have h1 := hrx vx hx
+      have h2 := hry vy hy
       simp only [Bool.or_eq_true, decide_eq_true_eq] at hc
       have : vx ≠ vy := by omega
       simp [Sym.eval, this]
     · simp [hc] at ho
+
+/-- The same on operands that stay inside `i32` (`good`), with no hypothesis about `range`. -/
+theorem c10_equal_hom_good (σ : Env) :
+    OpHomOn σ (fun e => good σ e = true) eqOp (fun a b => some (if a = b then 1 else 0)) :=
+  fun x y r vx vy w hx hy => c10_equal_homOn σ x y r vx vy w (rangeSound_of_good σ x hx) (rangeSound_of_good σ y hy)
 
 end RtenVerif.ShapeInfer
